@@ -121,6 +121,43 @@ inductive UnixStep where
   | found (p : Parts)
   deriving DecidableEq, Repr
 
+/-- the text after the date: `copyFrom` advanced over white space as `flags.skip_whitespace` says -/
+def afterDate (skipWs : Bool) (rest : Bytes) : Bytes :=
+  if skipWs then rest.dropWhile isWs                       -- while (*copyFrom && strchr(w_space, *copyFrom)) ++copyFrom;
+  else match rest with                                     -- if (*copyFrom && strchr(w_space, *copyFrom)) ++copyFrom;
+    | c :: r => if isWs c then r else c :: r
+    | [] => []
+
+/-- `p->name`, `p->link`: a symbolic link's name is cut at the first " -> " -/
+def nameLink (type : UInt8) (rest : Bytes) : Bytes × Option Bytes :=
+  if type == 108 then
+    match splitArrow rest with
+    | some (n, l) => (n, some l)
+    | none => (rest, none)
+  else (rest, none)
+
+/-- the body of `if (isTypeA || isTypeB)` -/
+def unixFound (buf : Bytes) (skipWs : Bool) (first size year : Tok) (date : Bytes) : UnixStep :=
+  let idx := year.pos + year.tok.length                    -- buf + tokens[i + 2].pos + strlen(tokens[i + 2].token)
+  if idx > buf.length then .oob else
+  let type := first.tok.headD 0                            -- *tokens[0].token
+  let nl := nameLink type (afterDate skipWs (buf.drop idx))
+  .found { type := type, size := strtoll size.tok, date := some date, name := some nl.1, link := nl.2 }
+
+/-- isTypeA || isTypeB -/
+def dateMatches (copyFrom month day year : Bytes) : Bool :=
+  let a := fmtDateA month day year
+  let b := fmtDateB month day year
+  (a.length == 12 && strncmpEq copyFrom (inTbuf a) a.length) ||
+  ((b.length == 12 || b.length == 11) && strncmpEq copyFrom (inTbuf b) b.length)
+
+/-- the loop body once the four tokens look like "size Month day year" -/
+def unixMatch (buf : Bytes) (skipWs : Bool) (first size month day year : Tok) : UnixStep :=
+  if month.pos > buf.length then .oob else                  -- copyFrom = buf + tokens[i].pos
+  if dateMatches (buf.drop month.pos) month.tok day.tok year.tok then
+    unixFound buf skipWs first size year (inTbuf (fmtDateA month.tok day.tok year.tok))
+  else .stop                                                -- break
+
 /-- one iteration of the "locate the Month field" loop -/
 def unixAt (buf : Bytes) (toks : List Tok) (skipWs : Bool) (i : Nat) : UnixStep :=
   match toks[i - 1]?, toks[i]?, toks[i + 1]?, toks[i + 2]?, toks[0]? with
@@ -129,31 +166,7 @@ def unixAt (buf : Bytes) (toks : List Tok) (skipWs : Bool) (i : Nat) : UnixStep 
     else if !allDigits size.tok then .next
     else if !allDigits day.tok then .next
     else if !timeLike year.tok then .next
-    else if month.pos > buf.length then .oob
-    else
-      let copyFrom := buf.drop month.pos                           -- buf + tokens[i].pos
-      let a := fmtDateA month.tok day.tok year.tok
-      let isA := a.length == 12 && strncmpEq copyFrom (inTbuf a) a.length
-      let b := fmtDateB month.tok day.tok year.tok
-      let isB := (b.length == 12 || b.length == 11) && strncmpEq copyFrom (inTbuf b) b.length
-      if isA || isB then
-        let idx := year.pos + year.tok.length                      -- buf + tokens[i + 2].pos + strlen(tokens[i + 2].token)
-        if idx > buf.length then .oob else
-        let rest := buf.drop idx
-        let rest :=
-          if skipWs then rest.dropWhile isWs                       -- while (*copyFrom && strchr(w_space, *copyFrom)) ++copyFrom;
-          else match rest with                                     -- if (*copyFrom && strchr(w_space, *copyFrom)) ++copyFrom;
-            | c :: r => if isWs c then r else c :: r
-            | [] => []
-        let type := first.tok.headD 0                              -- *tokens[0].token
-        let nl : Bytes × Option Bytes :=
-          if type == 108 then
-            match splitArrow rest with
-            | some (n, l) => (n, some l)
-            | none => (rest, none)
-          else (rest, none)
-        .found { type := type, size := strtoll size.tok, date := some (inTbuf a), name := some nl.1, link := nl.2 }
-      else .stop
+    else unixMatch buf skipWs first size month day year
   | _, _, _, _, _ => .oob
 
 /-- `for (i = 3; i < n_tokens - 2; ++i)` -/
